@@ -358,6 +358,20 @@ example : filterWea (fun _ => some [2, 0]) ⟨[⟨1, 1, 0, 0, false⟩, ⟨1, 1,
     = some (⟨[⟨1, 1, 2, 0, false⟩, ⟨1, 1, 0, 0, false⟩], [12, 10]⟩, ⟨[⟨1, 1, 2, 0, false⟩, ⟨1, 1, 0, 0, false⟩], [22, 20]⟩) := by
   decide
 
+/-- **`filter_by_hoys` selects the step of the nearest minute**: an hour of the year whose product
+    with 60 lies within half a minute of the grid minute `m` (every float `m / 60.0`, e.g.
+    `32.666…·60 = 1959.99…`) is looked up as minute `m`, for every `m`; so the hours reported by
+    `AnalysisPeriod.hoys` select exactly their own steps, each once. -/
+theorem C12_filter_hoys_minute (m : Int) (x : Rat) (h1 : x - (m : Rat) < 1 / 2) (h2 : (m : Rat) - x < 1 / 2) :
+    hoyMoy x = m := round_eq_of_near m x h1 h2
+
+/-- **Counterexample for a truncating conversion** (seeded change C12-2): 08:40 of 2 Jan is
+    hour `32.666…`, whose product with 60 is just below 1960; truncation looks up minute 1959
+    (no step of a 20-minute Wea: dropped from a sparse Wea, previous step from an annual one). -/
+theorem C12_filter_hoys_trunc_counterexample :
+    hoyMoy (1960 - 1 / 10 ^ 13) = 1960 ∧ hoyMoyTrunc (1960 - 1 / 10 ^ 13) = 1959 := by
+  decide +kernel
+
 /-! ### Whole files -/
 
 /-- **Partial (whole-day) data sits on its own grid from the first hour of the first day**: the
